@@ -3,6 +3,10 @@ From PVPb Require Import Chunks Proofs.BitsP Proofs.VarintP.
 From Coq Require Import Lia.
 Open Scope Z_scope.
 
+(* decode_varint is the only function of the protobuf runtime that looks at the chunk structure *)
+Lemma chunk_readers_accounted : chunk_readers = accounted_chunk_readers.
+Proof. reflexivity. Qed.
+
 Lemma cb_get_u8_none cs : cb_get_u8 cs = None -> concat cs = [].
 Proof.
   induction cs as [|c cs IH]; cbn [cb_get_u8 concat]; [reflexivity|]. destruct c as [|b c]; [|discriminate].
